@@ -241,6 +241,13 @@ class QRef:
         sp = self.space
         if isinstance(op, cirq.TaggedOperation) and isinstance(op.untagged, cirq.ClassicallyControlledOperation):
             op = op.untagged      # tags (e.g. a noise model's PHYSICAL_GATE_TAG) carry no semantics
+        if hasattr(cirq, "If") and isinstance(op.untagged, cirq.If):
+            if key_of is not None:
+                raise Unsupported("If inside a sub-circuit")
+            op = op.untagged
+            if not all(eval_condition(c, b.records, self.record_dims) for c in op.conditions):
+                return [b]
+            return self._step_branch(b, op.sub_operation)
         # classical control: all conditions must hold
         if isinstance(op, cirq.ClassicallyControlledOperation):
             if key_of is not None:
